@@ -11,6 +11,7 @@ CONSTANTS
   MaxBal = 2
   Kinds <- KindsSibQ
   Ords <- OrdId3
+  AliasSafe = FALSE
   Window = FALSE
 INVARIANT TypeOK
 INVARIANT CacheCoherent
